@@ -846,6 +846,18 @@ func PlantInto(t *rapid.T, s *Stmt, i int) *Stmt {
 
 var wsRuns = []string{" ", "  ", "\t", "\n", "\r\n", " \n ", "\t\t ", "\n\n"}
 
+// comments are white space to CQL; a line comment ends at the first LF or CR (Cql.g: COMMENT ('--'|'//') .* ('\n'|'\r')).
+// Line comments are written with a leading blank (after a '-' token "-- c" would read "--- c"). A glued block comment ("a/* c */b") separates tokens like a blank does.
+var wsComments = []string{"/* c */", " /* c */ ", "/**/", "/* -- */", "/* a\nb */", " -- c\n", " --c\n", " // c\n", " -- c\r", " // c\r", " -- c\r\n", " --\r", " //\n", "\r", " \r "}
+
+// ws draws a white-space run: mostly blanks, one time in seven a comment or a bare CR.
+func ws(t *rapid.T) string {
+	if rapid.IntRange(0, 6).Draw(t, "wscomment") == 0 {
+		return wsComments[rapid.IntRange(0, len(wsComments)-1).Draw(t, "wsc")]
+	}
+	return wsRuns[rapid.IntRange(0, len(wsRuns)-1).Draw(t, "ws")]
+}
+
 func glueOK(l, r string) bool {
 	// may two tokens be written without whitespace in between without changing tokenisation?
 	switch l {
@@ -900,7 +912,7 @@ func mixCase(t *rapid.T, s string) string {
 func Respell(t *rapid.T, s *Stmt) string {
 	var sb strings.Builder
 	if rapid.IntRange(0, 4).Draw(t, "leadws") == 0 {
-		sb.WriteString(wsRuns[rapid.IntRange(0, len(wsRuns)-1).Draw(t, "ws")])
+		sb.WriteString(ws(t))
 	}
 	for i, tk := range s.Toks {
 		if i > 0 {
@@ -908,7 +920,7 @@ func Respell(t *rapid.T, s *Stmt) string {
 			if glueOK(prev, tk.Text) && rapid.IntRange(0, 2).Draw(t, "glue") > 0 {
 				// no whitespace
 			} else {
-				sb.WriteString(wsRuns[rapid.IntRange(0, len(wsRuns)-1).Draw(t, "ws")])
+				sb.WriteString(ws(t))
 			}
 		}
 		if tk.Kind == TkKeyword || tk.Kind == TkFunc {
@@ -923,9 +935,9 @@ func Respell(t *rapid.T, s *Stmt) string {
 	case 1:
 		sb.WriteString(" ;")
 	case 2:
-		sb.WriteString(wsRuns[rapid.IntRange(0, len(wsRuns)-1).Draw(t, "ws")])
+		sb.WriteString(ws(t))
 	case 3:
-		sb.WriteString(";" + wsRuns[rapid.IntRange(0, len(wsRuns)-1).Draw(t, "ws")])
+		sb.WriteString(";" + ws(t))
 	}
 	return sb.String()
 }
